@@ -3,16 +3,19 @@
 usage: seed_store.py   (reads /tmp/sa/<ID>/out/mutN and /tmp/sa/results/<ID>-mutN.json)"""
 import json, os, shutil, glob, re
 HERE = os.path.dirname(os.path.dirname(os.path.abspath(__file__)))
-for res in sorted(glob.glob("/tmp/sa/results/*.json")):
+import sys
+ROOT = sys.argv[1] if len(sys.argv) > 1 else "/tmp/sa"
+TAG = sys.argv[2] if len(sys.argv) > 2 else ""
+for res in sorted(glob.glob(ROOT + "/results/*.json")):
     name = os.path.basename(res)[:-5]
     pid, mut = name.split("-")
-    src = "/tmp/sa/%s/out/%s" % (pid, mut)
+    src = ROOT + "/%s/out/%s" % (pid, mut)
     try:
         r = json.load(open(res))
     except Exception:
         continue
     ok = r.get("applies") and r.get("tests_ok") and r.get("demo_with") == 1 and r.get("demo_without") == 0
-    dst = os.path.join(HERE, "seeded", "%s-%s" % (pid, mut))
+    dst = os.path.join(HERE, "seeded", "%s-%s%s" % (pid, TAG, mut))
     if not ok:
         print("SKIP %s: not confirmed (%s)" % (name, {k: r.get(k) for k in ("applies", "tests_ok", "demo_with", "demo_without")}))
         continue
